@@ -24,12 +24,13 @@ namespace C10
 open Model
 
 inductive Discipline where
-  | rowPartition | mapInjective | idempotentStore | region
+  | rowPartition | mapInjective | idempotentStore | region | atomicStore
 deriving DecidableEq, Repr
 
 /-- the reviewed parallel constructs, in source order -/
 def reviewed : List ((String × String × String × String) × Discipline) := [
   (("cirq_utils.c", "detect_cirq_sectors", "parallel for schedule(static)", "alpha_id from 0 while alpha_id < alpha_states"), Discipline.idempotentStore),
+  (("cirq_utils.c", "detect_cirq_sectors", "atomic write", "-"), Discipline.atomicStore),
   (("fci_graph.c", "calculate_Z_matrix", "parallel for schedule(static) collapse(2)", "km from 0 while km < nele - 1"), Discipline.rowPartition),
   (("fci_graph.c", "map_deexc", "parallel for schedule(static)", "i from 0 while i < size"), Discipline.mapInjective),
   (("fci_graph.c", "build_mapping_strings", "parallel for schedule(static)", "mapno from 0 while mapno < nmaps"), Discipline.rowPartition),
@@ -113,6 +114,7 @@ def reviewed : List ((String × String × String × String) × Discipline) := [
     directly, the shared scalars written directly (none), and the functions called inside the governed statement -/
 def reviewedBodies : List (String × String × List String × List String × List String) := [
   ("cirq_utils.c", "detect_cirq_sectors", ["paramarray"], [], ["cabs"]),
+  ("cirq_utils.c", "detect_cirq_sectors", ["paramarray"], [], []),
   ("fci_graph.c", "calculate_Z_matrix", ["out"], [], []),
   ("fci_graph.c", "map_deexc", ["index"], [], []),
   ("fci_graph.c", "build_mapping_strings", ["mapl"], [], ["CHECK_BIT", "SET_BIT", "UNSET_BIT", "count_bits_between", "fprintf", "string_to_index"]),
